@@ -44,14 +44,15 @@ def observed(r, table):
     return {"status": X.status_of(r["rc"]), "diags": d, "other": other}
 
 
-def check_case_oracle(case, sw, ob, table):
+def check_case_oracle(case, sw, ob, table, baseline=None):
     """C20's statement on what check-express printed for one (case, switches).  Returns (key, what) or None."""
     path = case.path()
     if ob["status"] in ("abort", "timeout") or ob["status"].startswith("signal"):
-        if sw:
+        base = baseline
+        if sw and base is not None and base != ob["status"]:
             return ("switch-abort", f"`check-express {' '.join('-' + o + ' ' + n for o, n in sw)} {path}` ends with {ob['status']} "
-                                    f"(without the switch the verdict is an exit status)")
-        return None        # a crash without switches is C06's business, not C20's
+                                    f"(without the switch: exit status {base})")
+        return None        # a crash that does not depend on the switches is C06's business, not C20's
     if ob["status"] == "2" and sw:
         return None        # usage: unknown class name — nothing printed about the file
     for (code, f, line, msg, is_err) in ob["diags"]:
@@ -121,7 +122,7 @@ def run_cases(ctx, b, model, table, cases, sets_of, label):
             ctx.hist("switches", " ".join("-" + o for o, _ in sw) or "none")
             for d in ob["diags"]:
                 ctx.hist("diagnostic printed", d[0])
-            v = check_case_oracle(c, sw, ob, table)
+            v = check_case_oracle(c, sw, ob, table, baseline=(obs[()]["status"] if () in obs else None))
             if v:
                 n_viol += 1
                 report_violation(ctx, b, table, c, sw, ob, v)
@@ -164,7 +165,8 @@ def report_violation(ctx, b, table, case, sw, ob, v):
         mc = X.Case("min", b"SCHEMA s;\nEND_SCHEMA;\n", [], "valid", [], "accept")
         r = X.run_tool(b, "check-express", mc, sw[-1:], ctx.work)
         mob = observed(r, table)
-        mv = check_case_oracle(mc, sw[-1:], mob, table)
+        base = observed(X.run_tool(b, "check-express", mc, [], ctx.work), table)["status"]
+        mv = check_case_oracle(mc, sw[-1:], mob, table, baseline=base)
         if mv and mv[0] == key:
             data, ob, what, case, sw = mc.data, mob, mv[1], mc, sw[-1:]
     ctx.violation(key, what, {
@@ -280,7 +282,8 @@ def replay(ctx, path):
     res = X.run_tool(b, "check-express", c, sw, ctx.work)
     ob = observed(res, table)
     ctx.count(1, key=(c.data, tuple(sw)))
-    v = check_case_oracle(c, sw, ob, table)
+    base = observed(X.run_tool(b, "check-express", c, [], ctx.work), table)["status"] if sw else None
+    v = check_case_oracle(c, sw, ob, table, baseline=base)
     if v:
         report_violation(ctx, b, table, c, sw, ob, v)
     elif sw and sw[-1][0] == "w":
